@@ -52,6 +52,12 @@ T = {
  "C10b-2": ("C10", "--needed stages its write through path.with_extension(tmp)", "--needed, an output that needs writing and an unrelated sibling <stem>.tmp"),
  "C11b-1": ("C11", "a finished source leaves the de-duplication set", "a source reachable two ways whose Ok result is handled before the scan result that lists it"),
  "C11b-2": ("C11", "`.txtpp` and `.txtpp.<ext>` are treated as sources", "a file named exactly .txtpp or .txtpp.md in a scanned directory or named as input"),
+ "C01b-1": ("C01", "un-indented directive output skips line-ending normalisation in LF sources", "LF source, un-indented include/run whose result contains CRLF (CRLF file, command printing CRLF, or the output of a CRLF dependency)"),
+ "C01b-2": ("C01", "`after` returns an empty output instead of none", "tag, then after, then the directive whose output should be captured"),
+ "C17b-1": ("C17", "the TXTPP_FILE guard only fires when the value names an existing file", "txtpp started with TXTPP_FILE set to something that is not an existing file relative to its cwd (a nested run in a subdirectory)"),
+ "C17b-2": ("C17", "the resolved shell is memoised per process", "two runs in one process with different shell_cmd values"),
+ "C18b-1": ("C18", "scan results bump the total once per entry but already-known files are not scheduled", "a file known before the scan of its directory is processed (HasDeps before ScanDir, or file and directory both named)"),
+ "C18b-2": ("C18", "run waits for the child before reading its pipes", "a command that prints more than 64 KiB"),
 }
 
 def main():
